@@ -91,7 +91,7 @@ def check_move(ctx):
     if up is None or pk is None:
         raise Undecided('anchor Move.unpack / Move.pack not found')
     ctx.unit('functions', 2)
-    w = repo.walker(max_paths=ctx.max_paths)
+    w = repo.walker(inline_depth=2, max_paths=ctx.max_paths, split_ifexp=True)
     table = {}
     extras = {}
     for side, fi, cursor in (('unpack', up, 'offset'), ('pack', pk, 'fragments.current_offset')):
